@@ -251,3 +251,73 @@ def rule_load_json(progs, tier, name="YAMLLOAD(json)", n_quick=50, n_thorough=60
         res.engines += 1
         res.ok({"trees": len(fam), "evaluations": nrun})
     return out
+
+
+def rule_route_json(progs, tier, name="YAMLROUTE(json)", n_quick=40, n_thorough=500):
+    """C27, JSON-output clause on YAML input, at the library's two printing entry points: for the
+    cursors a navigation program yields (each document, its fields / elements, one level below),
+    `DocumentCursor::stream_json` (streamed straight from the YAML cursor) and
+    `to_owned_cursor` + `StreamableValue::stream_json` (materialised first) must write the same text,
+    compact and indented, with and without sort-keys.  YAML output is not compared: the streamed
+    route preserves the source's styling by design."""
+    out = []
+    for cfg, P in progs.items():
+        res = RuleResult(name, cfg)
+        out.append(res)
+        I = Interp(P, max_steps=40000000, max_depth=300)
+        n = n_thorough if tier == "thorough" else n_quick
+        fam, dropped = yamlgen.streams(n, seed0=300, max_depth=3)
+        # U+2028 / U+2029 are a separately named document (a known difference between the routes)
+        fam = [x for x in fam if chr(0x2028) not in x[1] and chr(0x2029) not in x[1] and "\\L" not in x[1] and "\\P" not in x[1]]
+        fam = [("line-separator-in-string", '- "ls\\Lx"\n- "ps\\Px"\n', None), ("plain-scalars-and-numbers", "a: 1\nb: 1.50\nc: 0x1F\nd: ~\ne: 'q'\nf: [1e3, -0.0, .5]\n", None)] + fam
+        nrun = 0
+        crashed = False
+        Y = "yaml::light::YamlCursor::<'a, W>::"
+        for seed, text, docs in fam:
+            I.statics.clear()
+            data = text.encode("utf-8")
+            js = Slice(list(data), 0, len(data))
+            try:
+                r = I.call("yaml::index::YamlIndex::build", [js])
+                if not (isinstance(r, Adt) and r.vname == "Ok"):
+                    continue
+                ix = r.fields[0]
+                root = I.call("yaml::index::YamlIndex::<W>::root", [tmp_ref(ix), js])
+                cursors = []
+                c = I.call(Y + "first_child", [tmp_ref(root)])
+                while c.vi == 1:
+                    cursors.append(c.fields[0])
+                    c2 = I.call(Y + "first_child", [tmp_ref(c.fields[0])])
+                    k = 0
+                    while c2.vi == 1 and k < 5:
+                        cursors.append(c2.fields[0])
+                        if k == 1:
+                            c3 = I.call(Y + "first_child", [tmp_ref(c2.fields[0])])
+                            if c3.vi == 1:
+                                cursors.append(c3.fields[0])
+                        k += 1
+                        c2 = I.call(Y + "next_sibling", [tmp_ref(c2.fields[0])])
+                    c = I.call(Y + "next_sibling", [tmp_ref(c.fields[0])])
+                for ci, cur in enumerate(cursors):
+                    for w, sk in ((0, 0), (2, 0), (0, 1), (3, 1)):
+                        spec = Adt("jq::document::IndentSpec", 0, "IndentSpec", [w, 32])
+                        a, b = StrBuf([]), StrBuf([])
+                        ra = I.call("<yaml::light::YamlCursor<'a, W> as jq::document::DocumentCursor>::stream_json", [tmp_ref(cur), tmp_ref(a), spec, sk], gen={"W": "std::vec::Vec<u64>", "Out": "std::string::String"})
+                        ov = I.call("jq::eval_generic::to_owned_cursor", [tmp_ref(cur)], gen={"C": "yaml::light::YamlCursor<'a, std::vec::Vec<u64>>"})
+                        rb = I.call("<jq::value::OwnedValue as jq::stream::StreamableValue>::stream_json", [tmp_ref(ov), tmp_ref(b), spec, sk], gen={"W": "std::string::String"})
+                        nrun += 1
+                        if ra.vname != rb.vname or (ra.vname == "Ok" and bytes(a.b) != bytes(b.b)):
+                            res.bad(("%s:stream-%d" % (name, seed)) if isinstance(seed, int) else ("%s:doc:%s" % (name, seed)), "stream %r %r, cursor %d (indent %d, sort-keys %d): streamed from the cursor %s %r, materialised first %s %r" % (seed, text[:100], ci, w, sk, ra.vname, bytes(a.b)[:120], rb.vname, bytes(b.b)[:120]))
+                            raise StopIteration
+            except StopIteration:
+                continue
+            except Panic as e:
+                res.bad("%s:stream-%s" % (name, seed), "printing stream %r %r panics: %s" % (seed, text[:100], e))
+            except (Unsupported, KeyError, IndexError, AttributeError, TypeError) as e:
+                res.bad("%s:evaluate" % name, "cannot evaluate the two printing routes on stream %r %r: %r" % (seed, text[:100], e))
+                crashed = True
+                break
+        res.cells += nrun
+        res.engines += 2
+        res.ok({"streams": len(fam), "comparisons": nrun})
+    return out
